@@ -149,8 +149,8 @@ Qed.
 (* ---------- after clear_buffers() on the composite ---------- *)
 Lemma clear_obj_idem (ob : obj) : clear_obj P G C cf (clear_obj P G C cf ob) = clear_obj P G C cf ob.
 Proof.
-  unfold clear_obj. destruct ob; cbn. destruct (is_nonrigid o_kind); cbn; auto.
-  destruct (c_clear_u cf), (c_clear_v cf); reflexivity.
+  unfold clear_obj. destruct (is_nonrigid (o_kind P G C ob)) eqn:E; [|rewrite E; reflexivity].
+  rewrite kind_set_uv, E. destruct (c_clear_u cf), (c_clear_v cf); destruct ob; reflexivity.
 Qed.
 
 Lemma fold_clear_get l : forall s n,
@@ -168,12 +168,9 @@ Proof.
       unfold TransformState.get_obj, TransformState.set_obj; cbn. apply nth_error_replace_other; exact Hne. }
   rewrite Hc.
   destruct (in_dec Nat.eq_dec n l) as [Hl|Hl]; destruct (in_dec Nat.eq_dec n (m :: l)) as [Hm|Hm];
-    destruct (Nat.eq_dec m n) as [E|E]; try reflexivity.
-  - destruct (get_obj s n); cbn; [rewrite clear_obj_idem|]; reflexivity.
-  - exfalso. apply Hm. right. exact Hl.
-  - exfalso. apply Hm. right. exact Hl.
-  - exfalso. apply Hm. left. exact E.
-  - exfalso. destruct Hm as [Hm|Hm]; [exact (E Hm) | exact (Hl Hm)].
+    destruct (Nat.eq_dec m n) as [E|E]; try reflexivity;
+    try solve [exfalso; cbn in Hm; intuition congruence].
+  destruct (get_obj s n); cbn; [rewrite clear_obj_idem|]; reflexivity.
 Qed.
 
 Lemma fold_clear_frame l : forall s, pds P G C (fold_left (clear1 P G C cf) l s) = pds P G C s /\
